@@ -79,3 +79,43 @@ def get_recurrence(cx):
     # ghost index g = number of iterations done; the current assignment index is last - g
     cx.invariant(0, lambda st: CH(last.t - st['$i0'].t, toreal(st['right_side'])) == CH(last.t, mono.t))
     cx.ensures(lambda st, res: toreal(res) == RED(CH(last.t, mono.t)))
+
+
+@contract(F, 'RecBuilder.get_recurrences', ['C03', 'C01'])
+def get_recurrences(cx):
+    """the returned system is CLOSED: it has an equation for the goal monomial and for every monomial that occurs in a right-hand side
+    (for every order in which the worklist set is popped); termination of the worklist is not verified."""
+    REC = z3.Function('recurrence_of', REF, REF)                              # get_recurrence(m) as an expression object
+    MONS = z3.Function('monomials_of', REF, z3.SeqSort(tuple_sort([DR, DRef()])[0]))     # get_monoms(rec): (coefficient, monomial) pairs
+    _, mk, (acc_c, acc_m) = tuple_sort([DR, DRef()])
+    goal = cx.ref('monomial')
+    cx.param(self=cx.obj('RecBuilder', program=cx.obj('Program', symbols=V('opaque'))), monomial=goal)
+    cx.call('sympify', lambda ex, st, r, a, kw: a[0])
+    cx.call('get_recurrence', lambda ex, st, r, a, kw: V('ref', REC(a[0].t)), trusted='get_recurrence contract (above)')
+    cx.call('get_monoms', lambda ex, st, r, a, kw: V('seq', MONS(a[0].t), ek=DTuple(DR, DRef())), trusted='get_monoms(rhs): the monomials of the right-hand side (bounded C03 check)')
+    cx.call('get_initial_values', lambda ex, st, r, a, kw: V('opaque'))
+    cx.call('Recurrences', lambda ex, st, r, a, kw: a[0])
+    empty_map = V('map', (z3.K(REF, z3.Const('no_rec', REF)), z3.K(REF, z3.BoolVal(False))), kk=DRef(), vk=DRef(), size=z3.IntVal(0))
+    cx.set_hook('empty_kinds', {'recurrence_dict': empty_map, 'processed': D('set', elem=DRef())})
+    x = z3.Const('xm', REF); j = z3.Int('jm')
+
+    def keys_ok(st):
+        arr, dom = st['recurrence_dict'].t
+        return z3.ForAll([x], z3.And(z3.Select(dom, x) == member(st['processed'].t, x), z3.Implies(z3.Select(dom, x), z3.Select(arr, x) == REC(x))))
+
+    def covered(st, m_):
+        return z3.Or(member(st['processed'].t, m_), member(st['to_process'].t, m_))
+
+    def closed_except(st, cur=None, upto=None):
+        body = z3.Implies(z3.And(member(st['processed'].t, x), 0 <= j, j < z3.Length(MONS(REC(x)))),
+                          z3.Or(covered(st, acc_m(MONS(REC(x))[j])), z3.And(x == cur, j >= upto) if cur is not None else z3.BoolVal(False)))
+        return z3.ForAll([x, j], body)
+    cx.invariant(0, lambda st: z3.And(keys_ok(st), covered(st, goal.t), closed_except(st)))
+    cx.invariant(1, lambda st: z3.And(keys_ok(st), covered(st, goal.t), member(st['processed'].t, st['next_monom'].t),
+                                      st['monoms'].t == MONS(REC(st['next_monom'].t)), closed_except(st, st['next_monom'].t, st['$i1'].t)))
+
+    def post(st, r):
+        arr, dom = r.t
+        return z3.And(z3.Select(dom, goal.t),
+                      z3.ForAll([x, j], z3.Implies(z3.And(z3.Select(dom, x), 0 <= j, j < z3.Length(MONS(REC(x)))), z3.Select(dom, acc_m(MONS(REC(x))[j])))))
+    cx.ensures(post)
